@@ -21,6 +21,7 @@ struct ScriptCfg {
     int maxEdits = 10;
     bool ragged = false;
     bool nameVariants = false;    // parameter / group names that are case variants of other names, names and descriptions beyond what a file holds
+    bool workingCopies = false;   // copies of stored frames taken by the caller, one Frame object refilled with add()
     bool framesParam = false;     // POINT:FRAMES edited by hand at the end
     bool keepRefused = false;     // a parameter whose set() was refused is handed over all the same (it still holds its old content)
     bool selfParam = false;       // a parameter of the object handed back to it by reference
@@ -122,10 +123,15 @@ static rc::Gen<Op> gEditOp(const ScriptCfg &c) {
         w.push_back({2, op("colmut", {seedv()})});
         w.push_back({2, op("pcol", {sized(0, 30), uni(0, 2), g::just<long long>(8), seedv()})});
     }
+    if (c.workingCopies) {
+        w.push_back({2, op("refill", {uni(0, 3), frameDev(c), seedv()})});       // one Frame object refilled with add() (README style)
+        w.push_back({1, op("slotcopy", {uni(0, 3), sized(0, 20)})});             // a working copy of a stored frame
+    }
     if (c.reload) w.push_back({2, op("reload", {})});
     if (c.print) w.push_back({1, op("print", {})});
     if (c.selfParam && c.callerReuse) w.push_back({2, op("selfelem", {uni(0, 3), uni(0, 2), sized(0, 12), g::weightedOneOf<long long>({{3, uni(0, 3)}, {2, uni(4, 39)}})})});
     if (c.selfParam) w.push_back({2, op("selfparam", {sized(0, 12), sized(0, 12), sized(3, 40)})});
+    if (c.badParams) w.push_back({2, op("preuse", {sized(3, 9), sized(0, 14), seedv()})});
     if (c.badParams) w.push_back({1, op("dimq", {g::weightedOneOf<long long>({{2, uni(0, 3)}, {3, sized(2, 40)}}), g::weightedOneOf<long long>({{2, g::just<long long>(0)}, {3, uni(1, 3)}}), dimEntry(), dimEntry(), dimEntry()})});
     return weighted<Op>(w);
 }
@@ -140,7 +146,16 @@ static rc::Gen<std::vector<Op>> framesPart(const ScriptCfg &c) {
 
 rc::Gen<std::vector<Op>> genScriptOps(const ScriptCfg &c) {
     // structured: setup, frames, edits (with more frames interleaved), [fill]
-    auto mixed = g::weightedOneOf<std::vector<Op>>({{3, one(gEditOp(c))}, {2, gFrameAdd(c)}, {1, one(gSetupOp(c, c.lateRates))}});
+    // a working copy of stored frame k is handed back at the same position (or refilled) and edited afterwards
+    auto copyBack = g::mapcat(g::pair(uni(0, 3), sized(0, 20)), [](std::pair<long long, long long> sk) {
+        const long long s = sk.first, k = sk.second;
+        return g::weightedOneOf<std::vector<Op>>({
+            {2, concat({one(op("slotcopy", {g::just(s), g::just(k)})), one(op("fsub", {g::just(s), g::just<long long>(1), g::just(k)})), one(op("fmut", {g::just(s), uni(0, 4), seedv()})), one(op("fmut", {g::just(s), uni(0, 4), seedv()}))})},
+            {2, concat({one(op("slotcopy", {g::just(s), g::just(k)})), one(op("refill", {g::just(s), g::just<long long>(0), seedv()})), one(op("fsub", {g::just(s), uni(0, 2), sized(0, 20)}))})},
+            {1, concat({one(op("slotcopy", {g::just(s), g::just(k)})), one(op("fmut", {g::just(s), g::just<long long>(3), seedv()})), one(op("fsub", {g::just(s), uni(0, 1), sized(0, 20)}))})}});
+    });
+    auto mixed = c.workingCopies ? g::weightedOneOf<std::vector<Op>>({{6, one(gEditOp(c))}, {4, gFrameAdd(c)}, {2, one(gSetupOp(c, c.lateRates))}, {1, copyBack}})
+                               : g::weightedOneOf<std::vector<Op>>({{3, one(gEditOp(c))}, {2, gFrameAdd(c)}, {1, one(gSetupOp(c, c.lateRates))}});
     const double k = (c.maxEdits < 1 ? 1 : c.maxEdits) / 100.0;
     auto editsL = g::scale(k, g::container<std::vector<std::vector<Op>>>(g::scale(1.0 / k, mixed)));
     auto edits = g::map(editsL, [](std::vector<std::vector<Op>> v) { std::vector<Op> o; for (auto &x : v) o.insert(o.end(), x.begin(), x.end()); return o; });
@@ -171,12 +186,12 @@ static ScriptCfg cfgFor(const std::string &id, int tier) {
     if (id == "C01") { c.extend = true; }
     else if (id == "C03") { c.reload = true; }
     else if (id == "C05") { c.deviations = true; c.reload = true; c.lateRates = true; c.fillAtEnd = false; c.badParams = true; }
-    else if (id == "C06") { c.fillAtEnd = false; c.callerReuse = false; c.deviations = true; }   // accepted deviating frames (e.g. points only) must be stored exactly as given too
+    else if (id == "C06") { c.workingCopies = true; c.fillAtEnd = false; c.callerReuse = false; c.deviations = true; }   // accepted deviating frames (e.g. points only) must be stored exactly as given too
     else if (id == "C07") { c.deviations = true; c.fillAtEnd = false; }
-    else if (id == "C08") { c.callerReuse = true; c.fillAtEnd = false; }
+    else if (id == "C08") { c.workingCopies = true; c.callerReuse = true; c.fillAtEnd = false; }
     else if (id == "C09") { c.badParams = true; c.nameVariants = true; c.selfParam = true; c.fillAtEnd = false; c.maxFrames = 2; }
     else if (id == "C10") { c.deviations = true; c.badParams = true; c.nameVariants = true; c.ragged = true; c.reload = true; c.fillAtEnd = false; }
-    else if (id == "C13") { c.selfParam = true; c.keepRefused = true; c.deviations = true; c.badParams = true; c.callerReuse = true; c.reload = true; c.print = true; c.ragged = false; }
+    else if (id == "C13") { c.workingCopies = true; c.selfParam = true; c.keepRefused = true; c.deviations = true; c.badParams = true; c.callerReuse = true; c.reload = true; c.print = true; c.ragged = false; }
     else if (id == "C14") { c.print = false; c.raggedSub = true; }
     else if (id == "C15") { c.framesParam = true; }
     return c;
